@@ -1,0 +1,8 @@
+//go:build !verif
+// +build !verif
+
+package reverse
+
+// verifYield is a yield point of the verification harness in /verif; without the build tag
+// "verif" it compiles to nothing.
+func verifYield(point string, obj interface{}) {}
